@@ -229,12 +229,15 @@ def plan(tier, seed):
 
 def aliases(Kl):
     ids = set()
-    ids.add(id(Kl._next))
-    ids.add(id(Kl._labels))
     ids.add(id(Kl.S0))
-    for s in Kl._next:
-        ids.add(id(Kl._next[s]))
-        ids.add(id(Kl._labels[s]))
+    if lib.owns_adjacency(Kl):
+        ids.add(id(Kl._next))
+        for s in Kl._next:
+            ids.add(id(Kl._next[s]))
+    if lib.owns_labels(Kl):
+        ids.add(id(Kl._labels))
+        for s in Kl._labels:
+            ids.add(id(Kl._labels[s]))
     return ids
 
 
@@ -338,7 +341,12 @@ def run_fresh(k, naming, acc):
     quantified subformulas of the formula at hand (recorded on a dry run), so that its name-collision
     loop runs for every one of them; atoms optionally renamed to format-hostile strings."""
     import pyModelChecking.CTLS.model_checking as CMC
-    orig = CMC._get_a_new_atomic_proposition_for
+    orig = getattr(CMC, '_get_a_new_atomic_proposition_for', None)
+    if orig is None:
+        # the private helper the recorder wraps is gone: the generated names cannot be observed, the
+        # other shards still apply
+        acc.add('fresh_name_recorder_absent')
+        return
     sem = Sem(k)
     for f in FORMS['CTLS']:
         for m in HOSTILE:
